@@ -60,15 +60,17 @@ LastLE(trans, ts, lo, hi) ==
 
 HasFooter(tz) == tz.ver >= 2 /\ tz.footer.kind # "none"
 
-\* the set of offsets the property allows for instant ts
+\* what the property allows for instant ts: one offset, or anything ([any |-> TRUE]) where it is silent
+Exactly(off) == [any |-> FALSE, off |-> off]
+Anything == [any |-> TRUE]
 Lookup(tz, ts) ==
   LET n == Len(tz.trans) IN
-  IF n = 0 THEN (IF HasFooter(tz) THEN {RuleOffset(tz.footer, ts)}
-                 ELSE IF Len(tz.types) >= 1 THEN {tz.types[1]} ELSE {"any"})
-  ELSE IF TLt(ts, tz.trans[1].t) THEN {"any"}                  \* before the first transition: not specified
+  IF n = 0 THEN (IF HasFooter(tz) THEN Exactly(RuleOffset(tz.footer, ts))
+                 ELSE IF Len(tz.types) >= 1 THEN Exactly(tz.types[1]) ELSE Anything)
+  ELSE IF TLt(ts, tz.trans[1].t) THEN Anything                 \* before the first transition: not specified
   ELSE IF TLe(tz.trans[n].t, ts) THEN
-         (IF HasFooter(tz) THEN {RuleOffset(tz.footer, ts)} ELSE {tz.types[tz.trans[n].idx + 1]})
-  ELSE {tz.types[tz.trans[LastLE(tz.trans, ts, 1, n)].idx + 1]}
+         (IF HasFooter(tz) THEN Exactly(RuleOffset(tz.footer, ts)) ELSE Exactly(tz.types[tz.trans[n].idx + 1]))
+  ELSE Exactly(tz.types[tz.trans[LastLE(tz.trans, ts, 1, n)].idx + 1])
 
 \* ---- well-formedness assumed by C18 ------------------------------------------------
 \* the footer agrees with the last transition's type at the last transition (RFC 8536 3.3)
